@@ -507,6 +507,12 @@ func runConc(rc *RunCtx, prop string) {
 		if nesting && (id == "n0" || id == "n2") {
 			mn.nest = broker
 		}
+		if id == "n3" {
+			// a node of a type that cannot be compared with == (registered by value): perfectly legal
+			broker.RegisterNode(el.NodeID(id), valueNode{inner: mn, tags: []string{"by", "value"}})
+			init.nodes[id] = id
+			continue
+		}
 		broker.RegisterNode(el.NodeID(id), mn)
 		init.nodes[id] = id
 	}
@@ -514,6 +520,7 @@ func runConc(rc *RunCtx, prop string) {
 	objSeq := 0
 	desc := &concDesc{}
 	rc.Desc = desc
+	var lastReg []*cOp // the pipeline registrations generated so far (any client)
 	newRegPipe := func(typ, pid string, bad bool) []*cOp {
 		markerSeq++
 		m := fmt.Sprintf("m%d", markerSeq)
@@ -541,6 +548,7 @@ func runConc(rc *RunCtx, prop string) {
 		} else if prop != "C05" && tp.Choose(8, "deny") == 0 {
 			o.Policy = "deny"
 		}
+		lastReg = append(lastReg, o)
 		return []*cOp{rn, o}
 	}
 	// initial pipelines (registered before the clients start)
@@ -588,6 +596,13 @@ func runConc(rc *RunCtx, prop string) {
 		}
 		switch k {
 		case 0:
+			if len(lastReg) > 0 && tp.Choose(4, "identical-reregistration") == 0 {
+				// the very same definition once more (same marker, same nodes): a configuration reload
+				prev := lastReg[tp.Choose(len(lastReg), "which")]
+				if !prev.Bad {
+					return one(&cOp{Kind: "regpipe", Typ: prev.Typ, PID: prev.PID, Marker: prev.Marker, NodeIDs: append([]string(nil), prev.NodeIDs...), Policy: prev.Policy})
+				}
+			}
 			return newRegPipe(typ, pid, false)
 		case 1:
 			return one(&cOp{Kind: "rmpipe", Typ: typ, PID: pid})
